@@ -635,6 +635,14 @@ def new_list():
     return []
 
 
+def iadd(a, b):
+    """a += b"""
+    if isinstance(a, builtins.list) and isinstance(b, (SSeq, SCursorSlice)) and not isinstance(SSeq.of(b).length() if isinstance(b, SSeq) else None, int):
+        return SSeq.of(a, "list") + (b if isinstance(b, SSeq) else b.materialize())
+    a += b
+    return a
+
+
 # ------------------------------------------------------------------------------------------
 # loop cutting
 
